@@ -16,6 +16,7 @@ func init() {
 		},
 		NotDecided: []string{"aggregate arithmetic (Welford, NaN handling)", "final ordering for ties", "container/heap correctness"},
 		Rules: func(r *Run) {
+			ruleStepBuffers(r)
 			ruleValueStrGuarded(r)
 			ruleAvgInfinityGuard(r)
 			ruleGrouperSelection(r)
